@@ -27,8 +27,9 @@ REDIRECT_KEYS = frozenset([
 ])
 REDIRECT_STEMS = ("redir", "url", "uri", "link", "target", "goto", "next", "dest", "return", "orig", "continue")
 
-# generous reading of "AMP / Marfeel cache path": any occurrence, any case, leading dot optional, the host with or without a port
-CACHE_MARK_RE = re.compile(r"ampproject\.org(?::\d*)?/[cv]/|marfeelcache\.com(?::\d*)?/amp/|marfeel\.com(?::\d*)?/", re.I)
+# "AMP / Marfeel cache path": the cache hosts '<x>.ampproject.org', 'bc.marfeelcache.com', 'bc.marfeel.com' (any occurrence, any case, with or without a port);
+# a look-alike ('bc-marfeel.com', 'ampproject.org' without a label in front) is not a cache
+CACHE_MARK_RE = re.compile(r"\.ampproject\.org(?::\d*)?/[cv]/|bc\.marfeelcache\.com(?::\d*)?/amp/|bc\.marfeel\.com(?::\d*)?/", re.I)
 
 # a parameter name starts the string or follows '?' / '&', and contains none of ? & / # =
 _KEY_RE = re.compile(r"(?:^|(?<=[?&]))([^?&/#=]+)=")
